@@ -254,6 +254,9 @@ func ruleDispatch(c *Ctx) {
 			continue
 		}
 		b.operationOrderObligation(l, ai)
+		if b.Name == "v5" {
+			b.emptyPathIsRoot(l, ai)
+		}
 		// (a) case set and handlers
 		var got []string
 		for k := range ai.caseBlk {
